@@ -44,7 +44,12 @@ def strip_nested(s):
     return s
 
 
-COSMETIC = [(re.compile(r"inline: (true|false)"), "inline: _"),
+def _ws(m):
+    return "expression_string: #s\"" + " ".join(m.group(1).split()) + "\""
+
+
+# the text a `debug` expression quotes is the source text of its expression: its inner spacing is layout
+COSMETIC = [(re.compile(r'expression_string: #s"((?:[^"\\\\]|\\\\.)*)"'), _ws), (re.compile(r"inline: (true|false)"), "inline: _"),
             (re.compile(r"braces: (true|false)"), "braces: _"), (re.compile(r"parens: (true|false)"), "parens: _")]
 
 
